@@ -645,7 +645,10 @@ def compare_multiway(block_intersection, dataset_names, phases):
         if len(block) < 2:
             continue
         total_compared += len(block) - 1
-        phasings = ["".join(str(phases[j][i].phase[0]) for i in block) for j in range(len(phases))]
+        phasings = [
+            "".join(allele_code(phases[j][i].phase, phases[0][i].phase, 0) for i in block)
+            for j in range(len(phases))
+        ]
         switch_encodings = [switch_encoding(p) for p in phasings]
         for i in range(len(block) - 1):
             s = "".join(switch_encodings[j][i] for j in range(len(switch_encodings)))
